@@ -224,3 +224,118 @@ def refute(assumptions, goal, model, tries=6000, seed=0):
         except (OverflowError, ZeroDivisionError, ValueError):
             continue
     return "spurious", {"assignments_satisfying_the_assumptions": evaluable}
+
+
+# ----------------------------------------------------------------------------------------------------
+# solver-assisted search: fix the INPUTS, let the solver find the dependent values, pin log/exp/trig to their real values
+# ----------------------------------------------------------------------------------------------------
+
+
+def uf_apps(formulas):
+    out, seen, stack = [], set(), list(formulas)
+    while stack:
+        e = stack.pop()
+        if not z3.is_expr(e) or e.get_id() in seen:
+            continue
+        seen.add(e.get_id())
+        if z3.is_quantifier(e):
+            raise NoEval("quantifier")
+        if z3.is_app(e) and e.decl().kind() == z3.Z3_OP_UNINTERPRETED and e.num_args() == 1 and e.decl().name() in FREE_UFS:
+            out.append(e)
+        stack.extend(e.children())
+    return out
+
+
+def _num(v):
+    if z3.is_int_value(v):
+        return float(v.as_long())
+    if z3.is_rational_value(v):
+        return v.numerator_as_long() / v.denominator_as_long()
+    if z3.is_algebraic_value(v):
+        return float(v.approx(20).as_decimal(20).rstrip("?"))
+    raise NoEval("model value")
+
+
+def _rv(x):
+    from fractions import Fraction
+    f = Fraction(x)
+    return z3.RealVal(f.numerator) / z3.RealVal(f.denominator)
+
+
+def _pin(app, argv):
+    """A constraint that pins app = f(arg) to the real function's value in a small neighbourhood of arg = argv, and the
+    tolerance within which a model value counts as consistent; None when argv is outside the function's domain."""
+    f = _FUN[app.decl().name()]
+    w = 1e-10 * max(1.0, abs(argv))
+    try:
+        mid, lo, hi = f(argv), f(argv - w), f(argv + w)
+    except (ValueError, OverflowError):
+        return None, None, None
+    slack = abs(hi - lo) + 1e-10 * max(1.0, abs(mid))
+    arg = app.arg(0)
+    c = z3.Implies(z3.And(arg >= _rv(argv - w), arg <= _rv(argv + w)), z3.And(app >= _rv(mid - slack), app <= _rv(mid + slack)))
+    return c, mid, 2 * slack
+
+
+def refute_by_solving(assumptions, goal, model, inputs, budget_ms=4000, samples=6, rounds=6, seed=0):
+    """inputs: the z3 constants that are the task's declared inputs.  For the model's input values (first) and for sampled
+    ones: fix the inputs, solve assumptions & not goal, compare every log/exp/trig application of the model with the real
+    function at the model's argument, pin it there, solve again ... until the model is consistent with the real functions
+    (-> ("confirmed", model)) or the candidate is exhausted.  ("spurious", n) when no candidate yields a consistent model."""
+    try:
+        apps = uf_apps(list(assumptions) + [goal])
+        consts = free_consts(list(assumptions) + [goal])
+    except NoEval as e:
+        return "n/a", str(e)
+    inputs = [c for c in inputs if c.decl().name() in consts]
+    rng = random.Random(seed)
+    cands = []
+    if model is not None:
+        cands.append([(c, model.eval(c, model_completion=True)) for c in inputs])
+    for _ in range(samples):
+        cand = []
+        for c in inputs:
+            v = _sample(c, rng)
+            cand.append((c, z3.BoolVal(v) if z3.is_bool(c) else z3.IntVal(v) if z3.is_int(c) else _rv(v)))
+        cands.append(cand)
+    tried = 0
+    for cand in cands:
+        s = z3.Solver()
+        s.set("timeout", budget_ms)
+        s.add(*assumptions)
+        s.add(z3.Not(goal))
+        if "pi" in consts:
+            s.add(consts["pi"] >= _rv(math.pi - 1e-12), consts["pi"] <= _rv(math.pi + 1e-12))
+        for c, v in cand:
+            s.add(c == v)
+        for _ in range(rounds):
+            if s.check() != z3.sat:
+                break
+            m = s.model()
+            tried += 1
+            consistent = True
+            try:
+                for app in apps:
+                    argv = _num(m.eval(app.arg(0), model_completion=True))
+                    appv = _num(m.eval(app, model_completion=True))
+                    c, real, tol_ = _pin(app, argv)
+                    if c is None:
+                        consistent = False      # outside the function's domain: not a clean counterexample
+                        continue
+                    if abs(appv - real) > tol_:
+                        consistent = False
+                    s.add(c)
+            except NoEval:
+                break
+            if consistent:
+                # final word: the obligation must also fail when everything is re-computed in floating point with the real
+                # functions and rounding-tolerant comparisons (a goal that holds with equality must not fail by the pin width)
+                try:
+                    env = _model_env(m, {k: v for k, v in consts.items() if k != "pi"})
+                    cache = {}
+                    if all(ev(a, env, cache) for a in assumptions) and not ev(goal, env, cache):
+                        return "confirmed", m
+                except (NoEval, OverflowError, ZeroDivisionError, ValueError):
+                    pass
+                break
+    return "spurious", {"assignments_satisfying_the_assumptions": tried}
